@@ -95,6 +95,7 @@ META = {
 C_TOL = 1.0e3      # forward-error constant (measured ratios on the clean tree stay below ~15)
 C_GAIN = 1.0e5     # same for the gains stream (its sensitivity is only SAMPLED along four random data perturbations,
                    # not worst-case; largest ratio seen on the clean tree with 1e4: 1.3)
+NEARSYM: list = []   # (u ratio, x ratio, relative difference) implementation vs model on nearly symmetric Q (informational)
 STAT: dict = {}    # largest observed error / allowed-error ratio per check (goes into the evidence notes)
 
 
@@ -1138,6 +1139,14 @@ def compare_lqr_model(ctx: Ctx, reps, metas):
         eu = np.abs(ui - um) / (C_TOL * eps * tol_u + 1e-300)
         ex = np.abs(xi - xm) / (C_TOL * eps * tol_x + 1e-300)
         ec = abs(ci - cm) / (C_TOL * eps * (Ja + float((_sg * tol_u).sum())) + C_TOL * r.floor(None, eps)[1] + 1e-300)
+        if case.get("qstyle") == "nearsym":
+            # outside "symmetric PD": INFORMATIONAL. The implementation here = the model (Q used as given, Cholesky reading the lower
+            # triangle of Quu); anything that treats the asymmetric part differently (LU instead of Cholesky, a hidden
+            # `if allclose(Q, Q.mT): symmetrise`) moves the result by ~1e-6 relative — recorded in the evidence notes, not a verdict,
+            # because on the property's domain (exactly symmetric Q) all of these coincide
+            NEARSYM.append((float(eu.max()), float(ex.max()), float(np.abs(ui - um).max() / (np.abs(um).max() + 1e-300))))
+            ctx.count("lqr.nearsym.agrees-with-model" if (eu.max() <= 1 and ex.max() <= 1) else "lqr.nearsym.DIFFERS-from-model")
+            continue
         stat("model.u", eu.max()); stat("model.x", ex.max()); stat("model.cost", ec)
         if eu.max() > 1 or ex.max() > 1 or ec > 1:
             ctx.disagree("lqr", case, f"item {b}: implementation vs model: u {np.abs(ui - um).max():.3e} (ratio {eu.max():.2f}), "
@@ -1994,6 +2003,9 @@ def run(ctx: Ctx):
         cases.append(gen_mpc_nls_case(rng, big=not ctx.quick))
     run_cases(ctx, cases)
     run_stepper(ctx, ctx.pick(40, 1000))
+    if NEARSYM:
+        ctx.notes.append(f"nearly symmetric Q (1e-6 entrywise asymmetry, {len(NEARSYM)} items, informational): implementation vs model largest "
+                         f"u ratio {max(a for a, _, _ in NEARSYM):.3g}, largest relative difference {max(c for _, _, c in NEARSYM):.3g}")
     ctx.notes.append("largest observed/allowed ratios: " + ", ".join(f"{k}={v:.3g}" for k, v in sorted(STAT.items())))
 
 
